@@ -290,35 +290,47 @@ def bigCall (ci : CallIn) : Bool :=
   (match ci.args with | .val v => hasBig v | .absent => false) ||
   (match ci.hout with | some j => hasBig j | none => false)
 
+/-- null arguments reached the handler as null, everything else as demanded (F12) -/
+def f12Guard (d : ToolD) (ci : CallIn) (o : Obs) : Bool :=
+  ci.argsNull && optCeq o.seen (some .null) && sameObs { o with seen := (obsOf (ideal d ci)).seen } (obsOf (ideal d ci))
+
+/-- the first integer of the Go integer ranges that `got` holds differently from `want` -/
+def firstNumDiff : Option JVal → Option JVal → Option (String × Dec × Dec)
+  | some w, some g => numDiff w g
+  | _, _ => none
+
+/-- the handler ran, as it should, on an input that differs in such an integer (and in no misbound member) -/
+def recvGuard (d : ToolD) (ci : CallIn) (o : Obs) : Bool :=
+  bigCall ci && o.inv == some true && (obsOf (ideal d ci)).inv == some true && !optCeq o.seen (obsOf (ideal d ci)).seen &&
+  (match defaulted idEnv d.isch ci.args, o.seen with
+   | some dv, some sv => (blameMember d.ity dv sv).isNone | _, _ => true) &&
+  (firstNumDiff (ideal d ci).seen o.seen).isSome
+
+/-- a successful result, as it should be, whose structured content differs in such an integer -/
+def carryGuard (d : ToolD) (ci : CallIn) (o : Obs) : Bool :=
+  bigCall ci && o.inv == (obsOf (ideal d ci)).inv && optCeq o.seen (obsOf (ideal d ci)).seen && o.res == .ok &&
+  (obsOf (ideal d ci)).res == .ok && !optCeq o.sc (obsOf (ideal d ci)).sc &&
+  (firstNumDiff (ideal d ci).structured o.sc).isSome
+
+/-- a valid call holding an integer of (MaxInt64, MaxUint64] refused, as by a decode that keeps only int64 exact -/
+def u64Guard (d : ToolD) (ci : CallIn) (o : Obs) : Bool :=
+  (obsOf (ideal d ci)).inv == some true && o.inv == some false && (match ci.args with | .val v => hasU64 v | .absent => false) &&
+  sameObs o (obsOf (call (refEnv lossy63) d.tool ci.h ci.args))
+
+/-- the observation of the unrepaired wrapper (every number through float64, F9) -/
+def f9Guard (d : ToolD) (ci : CallIn) (o : Obs) : Bool :=
+  bigCall ci && sameObs o (obsOf (call (refEnv lossy53) d.tool ci.h ci.args))
+
 /-- The diagnosed shapes, tried first on an observation that is not the ideal one: the known defects of
 earlier trees (F12, F9) and the exact-integer clauses, which name the member and both values. -/
 def monDiag (d : ToolD) (ci : CallIn) (o : Obs) : Option Clause :=
-  let t := d.tool
-  let io := obsOf (ideal d ci)
-  let unrep := obsOf (call (refEnv lossy53) t ci.h ci.args)
-  let big := bigCall ci
-  if ci.argsNull && optCeq o.seen (some .null) && sameObs { o with seen := io.seen } io then some .f12NullSeen
-  else if big && o.inv == some true && io.inv == some true && !optCeq o.seen io.seen &&
-      (match defaulted idEnv d.isch ci.args, o.seen with
-       | some dv, some sv => (blameMember d.ity dv sv).isNone | _, _ => true) &&
-      (match (ideal d ci).seen, o.seen with | some w, some g => (numDiff w g).isSome | _, _ => false) then
-    match (ideal d ci).seen, o.seen with
-    | some w, some g =>
-      match numDiff w g with
-      | some (p, a, b) => some (.recvExact p a b)
-      | none => none
-    | _, _ => none
-  else if big && o.inv == io.inv && optCeq o.seen io.seen && o.res == .ok && io.res == .ok && !optCeq o.sc io.sc &&
-      (match (ideal d ci).structured, o.sc with | some w, some g => (numDiff w g).isSome | _, _ => false) then
-    match (ideal d ci).structured, o.sc with
-    | some w, some g =>
-      match numDiff w g with
-      | some (p, a, b) => some (.carryExact p a b)
-      | none => none
-    | _, _ => none
-  else if io.inv == some true && o.inv == some false && (match ci.args with | .val v => hasU64 v | .absent => false) &&
-      sameObs o (obsOf (call (refEnv lossy63) t ci.h ci.args)) then some .u64Refused
-  else if big && sameObs o unrep then some .f9
+  if f12Guard d ci o then some .f12NullSeen
+  else if recvGuard d ci o then
+    (firstNumDiff (ideal d ci).seen o.seen).map fun (p, a, b) => .recvExact p a b
+  else if carryGuard d ci o then
+    (firstNumDiff (ideal d ci).structured o.sc).map fun (p, a, b) => .carryExact p a b
+  else if u64Guard d ci o then some .u64Refused
+  else if f9Guard d ci o then some .f9
   else none
 
 /-- The contract chain: the first component of the observation `o` that departs from the ideal one `io`,
@@ -336,11 +348,14 @@ def monContract (d : ToolD) (ci : CallIn) (o io : Obs) : Option Clause :=
   else if io.inv == some false && (o.res != .toolerr || o.content.isEmpty || o.sc.isSome) then some .invalidNoToolErr
   else if isNilPtr (ci.h .null).out && (o.res != io.res || !optCeq o.sc io.sc) then some .nilPtr
   else if o.res != io.res then
-    if io.res == .rpcerr then some .invalidOutReturned
+    -- "returned as a result": a SUCCESSFUL result although the handler's output (it returned no error)
+    -- violates the output schema; any other wrong kind is a breach of the wrapper's error contract
+    if io.res == .rpcerr && (ci.h .null).err.isNone && o.res == .ok then some .invalidOutReturned
     else if io.res == .ok then some .validOutRefused
     else some .kindDiffers
   else if !optCeq o.sc io.sc then some .scDiffers
-  else if o.content != io.content then some .contentDiffers
+  -- the text fallback is a clause about successful results
+  else if io.res == .ok && o.content != io.content then some .contentDiffers
   else none
 
 /-- The C16 monitor: the implementation's observation against the wrapper run with exact numbers. The
